@@ -302,6 +302,18 @@ Theorem C13_register_starts_life : forall me T f f' b,
 Proof. exact register_gives_inv. Qed.
 Print Assumptions C13_register_starts_life.
 
+(* T < 65536 is necessary in C13_renewing_device_stays_served: with TTL 65537 (outside the property's 1..300 s) the
+   Register-Foreign-Device frame carries 1, and after one fine round with six ticks the acknowledged device
+   (status 0) is no longer listed *)
+Theorem C13_ttl_over_16_bits_refuted :
+  exists me T f' b d es s',
+    foreign_register (mkForeign (-1) None None None None) (b_addr b) T = Ok f' /\
+    inv me T (mkPair f' b) /\ round_fine me T (d, es) /\ (65536 <= T)%Z /\
+    pair_run me [(d, es)] (mkPair f' b) = Ok s' /\
+    f_status (p_dev s') = 0%Z /\ listed (b_fdt (p_bbmd s')) me = false.
+Proof. exact ttl_over_16_bits_witness. Qed.
+Print Assumptions C13_ttl_over_16_bits_refuted.
+
 (* ... and when the answers stop, the device gives up by itself at the instant the last
    acknowledgement armed (last ack + (T+30) s: C13_ack_sets_expiry): status -1, nothing accepted,
    nothing distributed.  (The BBMD's side of the same silence is C13_fdt_served_window.) *)
